@@ -1,5 +1,5 @@
 """Per-property verification plans for /verif/check."""
-import json, os, sys, time, shutil, glob
+import json, os, re, sys, time, shutil, glob
 import vlib
 from vlib import V, OUT, log, ToolError
 
@@ -276,6 +276,11 @@ def plan_C01(run):
 
 def plan_C02(run):
     auth_small_models(run, [23, 47] if not run.thorough else [23, 47, 59, 167])
+    # the exchange with an active attacker on the wire: every replacement of B, salt, A, M1, M2 for every key pair
+    for cfg in (["MCMitm_q.cfg"] if not run.thorough else ["MCMitm_t.cfg", "MCMitm_t47.cfg"]):
+        run.model("mitm-" + cfg[7:-4], "MCMitm", cfg, workers=8, coverage=True,
+                  exhaustive_note="N=23 (t47: N=47): every pair of private keys x every replacement of one (thorough: two) of B, salt, A, M1, M2 "
+                                  "(public keys: every value below 2N+2; proofs: bit flips, zero, the other side's, the attacker's own session)")
     tr = run.harness("tamper")
     run.validate(tr, "TraceAuth")
 
@@ -338,9 +343,35 @@ def apalache_inductive(run):
     log("apalache ReconnectInd (unbounded histories): %s" % res)
 
 
+def tlaps_proof(run, module="ReconnectProof", prop="C05", what="Spec => [](OnlyCurrent /\\ SingleUse): histories of any length, value sets of any size"):
+    """Design-level, unbounded: tlapm checks the proof in spec/tlaps/<module>.tla (every obligation must be proved)."""
+    d = os.path.join(run.dir, "tlaps-" + module)
+    shutil.rmtree(d, ignore_errors=True)
+    os.makedirs(d)
+    shutil.copy(os.path.join(V, "spec", "tlaps", module + ".tla"), d)
+    try:
+        rc, o = vlib.sh(["tlapm", "--threads", "4", "--cleanfp", module + ".tla"], timeout=900, cwd=d)
+    except ToolError:
+        rc, o = -1, "timeout"
+    m = re.search(r"All (\d+) obligations? proved", o)
+    if rc == 0 and m:
+        res = "proved (%s obligations): %s" % (m.group(1), what)
+    elif re.search(r"\d+/\d+ obligations? failed", o):
+        res = "failed"
+        path = os.path.join(OUT, "replays", "%s-tlaps-%s.txt" % (prop, module))
+        open(path, "w").write(o[-20000:])
+        run.violations.append({"kind": "model-invariant", "model": module + "(tlaps)", "replay": path, "tags": [prop + ".model.proof"]})
+    else:
+        res = "tool-error"
+    shutil.rmtree(d, ignore_errors=True)
+    run.extra["tlaps_" + module] = res
+    log("tlapm %s: %s" % (module, res))
+
+
 def plan_C05(run):
     if run.thorough:
         apalache_inductive(run)
+        tlaps_proof(run)
     r = run.model("reconnect", "MCReconnect", "MCReconnect_%s.cfg" % ("t" if run.thorough else "q"), workers=8, coverage=True,
                   exhaustive_note="all attempt histories up to the cfg's MaxLen over 9 attempt kinds")
     hist = r.replay
@@ -373,6 +404,8 @@ def plan_C06(run):
 
 def stream_plan(run, exp):
     if exp != "wrath":
+        tlaps_proof(run, "StreamProof", "C07" if exp == "vanilla" else "C08",
+                    "Spec => []InStep: any key length, any key, any number of bytes (XOR through its involution property only)")
         run.model("stream", "MCStream", "MCStream_%s.cfg" % exp, workers=8,
                   exhaustive_note="every reachable cipher state (i, p) x every input byte, sender and receiver in lock-step")
         tr = run.harness("sweep", extra=[exp], tag="sweep")
@@ -412,7 +445,17 @@ def plan_C11(run):
                   exhaustive_note="every composition of every header length x interruption position x failure offset x error kind, read and write")
     templ = r.replay
     if not run.thorough:
-        templ = [t for i, t in enumerate(templ) if (i + run.seed) % 4 == 0]
+        # stratified sample: every (expansion, header kind, side, failure offset, failure kind) keeps at least one
+        # template (and one in eight of its fragmentations / interruptions), chosen by the run's seed
+        import random
+        rnd = random.Random(run.seed)
+        groups = {}
+        for t in sorted(templ, key=lambda t: json.dumps(t, sort_keys=True)):
+            groups.setdefault((t["exp"], t["kind"], t["side"], json.dumps(t["fail"], sort_keys=True)), []).append(t)
+        templ = []
+        for k in sorted(groups):
+            g = groups[k]
+            templ += rnd.sample(g, max(1, (len(g) + 7) // 8))
     scen = run.scen_file("hdrio", templ)
     tr = run.harness("hdrio", scen=scen)
     run.validate(tr, "TraceCipher", max_events=6000, parallel=6)
@@ -483,31 +526,49 @@ def plan_C19(run):
     for mode, scen, n in sets:
         a = run.harness(mode, scen=scen, n=n, extra=["det"], tag="pair-" + mode)
         b = run.harness(mode, scen=scen, n=n, extra=["det"], fast=True, tag="pair-" + mode)
-        res = vlib.run_tlc("%s-%s-pair-%s" % (run.pid, run.tier, mode), "TracePair", workers=1, env={"TRACE": a, "TRACE2": b}, xmx="3g -Xmn32m", timeout=3000)
-        run.states += res.distinct
-        run.transitions += res.generated
-        if res.stuck or not res.stats:
-            raise ToolError("TracePair did not consume %s:\n%s" % (a, res.out[-2000:]))
-        for k, v in res.stats.items():
-            run.stats["pair." + k] = run.stats.get("pair." + k, 0) + v
-        run.events += res.stats.get("events", 0)
-        lines = None
-        for (line, ev, tags) in res.viol:
+        # both traces are cut at the same scenario boundaries (they have the same reset structure unless the builds
+        # diverge, in which case the uncut pair is compared) and the pieces are compared in parallel
+        pa, pb = vlib.split_trace(a, 15000), vlib.split_trace(b, 15000)
+        if len(pa) != len(pb) or any(sum(1 for _ in open(x)) != sum(1 for _ in open(y)) for x, y in zip(pa, pb)):
+            pa, pb = [a], [b]
+        import concurrent.futures
+        def one(i):
+            return vlib.run_tlc("%s-%s-pair-%s-%d" % (run.pid, run.tier, mode, i), "TracePair", workers=1,
+                                env={"TRACE": pa[i], "TRACE2": pb[i]}, xmx="3g -Xmn32m", timeout=3000)
+        with concurrent.futures.ThreadPoolExecutor(max_workers=6) as ex:
+            results = list(ex.map(one, range(len(pa))))
+        nev, nviol = 0, 0
+        for i, res in enumerate(results):
+          a_i, b_i = pa[i], pb[i]
+          run.states += res.distinct
+          run.transitions += res.generated
+          if res.stuck or not res.stats:
+              raise ToolError("TracePair did not consume %s:\n%s" % (a_i, res.out[-2000:]))
+          for k, v in res.stats.items():
+              run.stats["pair." + k] = run.stats.get("pair." + k, 0) + v
+          run.events += res.stats.get("events", 0)
+          nev += res.stats.get("events", 0)
+          nviol += len(res.viol)
+          lines = None
+          for (line, ev, tags) in res.viol:
             if lines is None:
-                lines = open(a).read().splitlines()
-                lines_b = open(b).read().splitlines()
+                lines = open(a_i).read().splitlines()
+                lines_b = open(b_i).read().splitlines()
             own = [t for t in tags if t.startswith("C19.")]
             ea = json.loads(lines[line - 1])
             eb = json.loads(lines_b[line - 1]) if line - 1 < len(lines_b) else None
             k = run.match_known(ea, own)
             if k is not None:
-                run.known_hits.append((k, a, line))
+                run.known_hits.append((k, a_i, line))
                 continue
             path = os.path.join(OUT, "replays", "%s-%s-%d.json" % (run.pid, run.tier, len(run.violations)))
-            json.dump({"property": "C19", "tags": own, "mode": mode, "line": line, "default_math_event": ea, "fast_math_event": eb,
+            json.dump({"property": "C19", "tags": own, "mode": mode, "file": a_i, "line": line, "default_math_event": ea, "fast_math_event": eb,
                        "reproduce": "wsh %s --seed %d --tier %s det  (both builds), then TracePair" % (mode, run.seed, run.tier)}, open(path, "w"))
             run.violations.append({"kind": "pair", "tags": own, "ev": ev, "line": line, "replay": path})
-        log("pair %-14s %7d events compared, %d differing" % (mode, res.stats.get("events", 0), len(res.viol)))
+          for f in (a_i, b_i):
+              if f not in (a, b):
+                  os.remove(f)
+        log("pair %-14s %7d events compared, %d differing" % (mode, nev, nviol))
         # the spec as the single oracle: the fast build's trace validated like any other (its tags are reported as notes)
         if run.thorough or sum(1 for _ in open(b)) < 8000:
             run.validate(b, "TraceAuth")
